@@ -20,7 +20,11 @@ MODULES = ['nl.bsn', 'nl.onderwijsnummer', 'pl.nip', 'pl.regon', 'pt.nif', 'dk.c
            'es.cups', 'es.nif', 'es.referenciacatastral', 'fr.nir', 'in_.gstin', 'si.emso', 'tn.mf', 'tw.ubn', 'ua.rntrc', 'us.ptin',
            'bg.vat', 'cz.dic', 'sk.dph', 'ro.cf', 'th.tin', 'it.codicefiscale', 'mu.nid', 'eu.at_02', 'mx.rfc', 'mx.curp', 'se.personnummer', 'cz.bankaccount',
            'no.fodselsnummer', 'fi.hetu', 'ch.ssn', 'lv.pvn', 'pl.pesel', 'ee.ik',
-           'iso6346', 'be.eid', 'de.stnr', 'sg.uen', 'ro.onrc', 'id.nik', 'id.npwp', 'cn.ric', 'be.nn', 'be.bis', 'us.ssn', 'us.itin', 'us.atin', 'us.ein', 'nz.bankaccount', 'my.nric', 'mac', 'imsi', 'cfi', 'isil', 'at.postleitzahl']
+           'iso6346', 'be.eid', 'de.stnr', 'sg.uen', 'ro.onrc', 'id.nik', 'id.npwp', 'cn.ric', 'be.nn', 'be.bis', 'us.ssn', 'us.itin', 'us.atin', 'us.ein', 'nz.bankaccount', 'my.nric', 'mac', 'imsi', 'cfi', 'isil', 'at.postleitzahl', 'isan']
+
+
+# the form a module's validator judges, where that is not compact(x): ISAN's compact() drops the check characters
+FULL_FORM = {'isan': lambda mod, x: mod.compact(x, strip_check_digits=False)}
 
 
 def worker(unit, emit):
@@ -28,9 +32,11 @@ def worker(unit, emit):
     mod = lib.module(name)
     rnd = random.Random('%s/nat/%s' % (p['seed'], name))
     corp = lib.pick(lib.corpus(name, mod), p['bases'], rnd)
+    full = FULL_FORM.get(name)
+    compact = (lambda x: full(mod, x)) if full else mod.compact
 
     def rec(x, how):
-        rc = lib.call(mod.compact, x)
+        rc = lib.call(compact, x)
         if rc['k'] != 'ret' or rc['t'] != 'str' or any(c > 127 for c in rc['v']):
             return
         r = lib.call(mod.validate, x)
@@ -41,7 +47,7 @@ def worker(unit, emit):
     for b in corp:
         rec(b, 'corpus')
         try:
-            c = mod.compact(b)
+            c = compact(b)
         except Exception:
             continue
         lens.add(len(c))
@@ -60,7 +66,7 @@ def worker(unit, emit):
     for n in sorted(lens):
         template = corp[0] if corp else '0' * n
         try:
-            t = mod.compact(template)
+            t = compact(template)
         except Exception:
             t = '0' * n
         for _ in range(p['random']):
